@@ -1,8 +1,17 @@
 mod c01;
+mod c05;
+mod c06;
+mod c08;
+mod c17;
+mod hashers;
+mod hsweep;
 mod chist;
 mod ciphers;
 mod explore;
+mod guts;
 mod report;
+mod simd;
+mod tf;
 
 use report::Report;
 
@@ -42,6 +51,18 @@ fn main() {
     let out = arg(&args, "--out");
     let rep: Report = match args[1].as_str() {
         "c01" => c01::run(&tier, &config),
+        "c04" => hsweep::run_c04(&tier, &config),
+        "c05" => c05::run(&tier, &config),
+        "c06" => c06::run(&tier, &config),
+        "c07" => hsweep::run_c07(&tier, &config),
+        "c08" => c08::run(&tier, &config),
+        "c17" => c17::run(&tier, &config),
+        "c12" => simd::run("C12", &tier, &config),
+        "c13" => simd::run("C13", &tier, &config),
+        "c09" => tf::run("C09", &tier, &config),
+        "c10" => tf::run("C10", &tier, &config),
+        "c14" => guts::run_c14(&tier, &config),
+        "c15" => guts::run_c15(&tier, &config),
         "c02" => chist::run("C02", &tier, &config),
         "c11" => chist::run("C11", &tier, &config),
         o => { eprintln!("unknown check {}", o); std::process::exit(2) }
